@@ -14,6 +14,7 @@ factory returned for that chunk.
 """
 import itertools
 import math
+import os
 import re
 import subprocess
 from fractions import Fraction
@@ -27,10 +28,62 @@ WINDOWS = ['cosine-squared', 'hann', 'blackman', 'hamming', 'bartlett', 'cosine'
 # windows documented as non-negative on [0, 1] (hamming/boxcar do not start at 0; still within [0, 1])
 NONNEG_WINDOWS = {'cosine-squared', 'hann', 'bartlett', 'cosine', 'boxcar', 'hamming'}
 FIR_TOL = 1e-12
+EQ_TOL = 1e-9
 
 
 def isamp(x, fs):
     return int(round(x * fs))
+
+
+# ---------------------------------------------------------------------------------------
+# helper interpreters
+# ---------------------------------------------------------------------------------------
+
+HELPER_CPU = 60         # CPU seconds a helper interpreter may burn (a loaded machine cannot trip a CPU limit)
+HELPER_WALL = 900       # wall-clock backstop only
+
+
+class HelperFailed(RuntimeError):
+    """a helper interpreter did not deliver (the library raised or hung in it)"""
+
+
+def helper_leash(cpu=HELPER_CPU):
+    """preexec_fn of the helper interpreters: the kernel kills the helper when the process that started it dies
+    (no orphans) and when it has burnt `cpu` CPU seconds (a library call that never returns)."""
+    me = os.getpid()
+
+    def fn():
+        try:
+            import ctypes
+            import signal
+            ctypes.CDLL('libc.so.6', use_errno=True).prctl(1, signal.SIGKILL)      # PR_SET_PDEATHSIG
+            if os.getppid() != me:
+                os._exit(1)
+        except Exception:  # noqa
+            pass
+        try:
+            import resource
+            hard = resource.getrlimit(resource.RLIMIT_CPU)[1]
+            lim = cpu + 10 if hard == resource.RLIM_INFINITY else min(cpu + 10, hard)
+            resource.setrlimit(resource.RLIMIT_CPU, (min(cpu, lim), lim))
+        except Exception:  # noqa
+            pass
+    return fn
+
+
+def run_helper(argv, **kw):
+    """subprocess.run of a helper interpreter under the leash; HelperFailed when it does not deliver."""
+    import signal
+    try:
+        r = subprocess.run(argv, capture_output=True, timeout=HELPER_WALL, preexec_fn=helper_leash(), **kw)
+    except subprocess.TimeoutExpired:
+        raise HelperFailed(f'reference interpreter did not finish within {HELPER_WALL} s: the library hangs on this input')
+    if r.returncode in (-signal.SIGXCPU, -signal.SIGKILL):
+        raise HelperFailed(f'reference interpreter did not finish within {HELPER_CPU} CPU-s: the library hangs on this '
+                           f'input')
+    if r.returncode != 0:
+        raise HelperFailed('reference interpreter failed: ' + r.stderr.decode(errors='replace')[-300:])
+    return r
 
 
 # ---------------------------------------------------------------------------------------
@@ -44,9 +97,30 @@ LEAVES = {'tone', 'samtone', 'silence', 'bbn', 'blnoise', 'firnoise', 'shaped', 
 FIXED_LIKE = {'chirp', 'click', 'blclick', 'wav'}
 
 
-def _cal():
+def _cal(kind=True):
+    """flat calibration; `interp`: one whose sensitivity depends on frequency (the SAM tone's `equalize` option, which
+    scales the sidebands by their own frequencies, makes a difference only then)"""
     from psiaudio import calibration
+    if kind == 'interp':
+        return calibration.InterpCalibration([0.0, 100.0, 1000.0, 10000.0, 200000.0], [-20.0, -17.0, -23.0, -14.0, -19.0])
     return calibration.FlatCalibration.from_spl(94)
+
+
+_STUB = []
+
+
+def _eqcal():
+    """A calibration that can equalise IIR band-limited noise: BandlimitedNoiseFactory(equalize=True) asks its
+    calibration for `get_iir`, which no calibration class of the library provides; a flat calibration with a fixed
+    short impulse response stands for the user's."""
+    if not _STUB:
+        from psiaudio import calibration
+
+        class StubCal(calibration.FlatCalibration):
+            def get_iir(self, fs, fl, fh, duration):
+                return np.array([0.5, 0.25, -0.125, 0.0625])
+        _STUB.append(StubCal.from_spl(94))
+    return _STUB[0]
 
 
 def fixed_array(node):
@@ -132,11 +206,98 @@ def wav_path(node):
     return path
 
 
-def _make(cls, params, kw):
-    """Call `cls` with every parameter positional (kw false) or every parameter by keyword."""
+# Documented defaults of the optional constructor arguments (the signatures of psiaudio.stim at the pinned version).
+# A caller who leaves an argument out gets exactly this value: `omit` nodes are built with the arguments left out,
+# the references of the checks with the value spelled out.
+DEFAULTS = {
+    'ToneFactory': {'phase': 0, 'polarity': 1, 'calibration': None},
+    'SAMToneFactory': {'depth': 1, 'phase': 0, 'phase_lb': 0, 'phase_ub': 0, 'polarity': 1, 'eq_power': True,
+                       'equalize': True, 'calibration': None},
+    'SilenceFactory': {'fill_value': 0},
+    'BroadbandNoiseFactory': {'seed': 1, 'equalize': False, 'polarity': 1, 'calibration': None},
+    'BandlimitedNoiseFactory': {'equalize': False, 'polarity': 1, 'calibration': None, 'discard_initial_samples': True},
+    'BandlimitedFIRNoiseFactory': {'ntaps': 1001, 'window': 'hann', 'polarity': 1, 'max_correction': np.inf,
+                                   'equalize': False},
+    'ShapedNoiseFactory': {'ntaps': 1001, 'window': 'hann', 'polarity': 1, 'calibration': None},
+    'ChirpFactory': {'window': 'boxcar', 'equalize': False},
+    'BandlimitedClickFactory': {'calibration': None, 'equalize': False},
+    'WavFileFactory': {'level': None, 'calibration': None, 'normalization': 'pe'},
+    'EnvelopeFactory': {'start_time': 0, 'transform': None},
+    'Cos2EnvelopeFactory': {'start_time': 0},
+    'SAMEnvelopeFactory': {'onset_method': 'ss_transition'},
+    'SquareWaveEnvelopeFactory': {'alpha': 0},
+}
+_NODEFAULT = object()
+
+
+def is_default(v, d):
+    """Is `v` the documented default `d` (0.0 and 0 are the same number; True is not 1)?"""
+    if d is _NODEFAULT:
+        return False
+    if v is None or d is None:
+        return v is None and d is None
+    if isinstance(v, (bool, str, np.bool_)) or isinstance(d, (bool, str)):
+        return type(v) is type(d) and v == d
+    try:
+        return float(v) == float(d)
+    except (TypeError, ValueError):
+        return False
+
+
+def _make(cls, params, kw, omit=False):
+    """Call `cls` with every parameter positional (kw false) or every parameter by keyword.  `omit`: arguments whose
+    value is the documented default are left out (by keyword: all of them; positionally: the trailing ones)."""
+    if omit:
+        dfl = DEFAULTS.get(cls.__name__, {})
+        if kw:
+            params = [(k, v) for k, v in params if not is_default(v, dfl.get(k, _NODEFAULT))]
+        else:
+            params = list(params)
+            while params and is_default(params[-1][1], dfl.get(params[-1][0], _NODEFAULT)):
+                params.pop()
     if kw:
         return cls(**dict(params))
     return cls(*[v for _, v in params])
+
+
+def explicit(node):
+    """The same tree with every argument spelled out (no `omit`)."""
+    if not isinstance(node, dict):
+        return node
+    out = {k: v for k, v in node.items() if k != 'omit'}
+    if 'in' in out:
+        out['in'] = explicit(out['in'])
+    return out
+
+
+def has_omit(node):
+    return bool(node.get('omit')) or ('in' in node and has_omit(node['in']))
+
+
+def to_defaults(node):
+    """Put every optional constructor argument of this node at its documented default and mark the node `omit`."""
+    t = node['t']
+    for k in {'tone': ('phase', 'polarity', 'cal'), 'samtone': ('phase', 'phase_lb', 'phase_ub', 'polarity', 'eq_power',
+                                                                 'equalize', 'cal'),
+              'bbn': ('polarity', 'cal'), 'blnoise': ('polarity', 'cal', 'discard', 'eq'), 'firnoise': ('window', 'polarity',
+                                                                                                  'max_correction', 'equalize'),
+              'shaped': ('window', 'polarity', 'cal'), 'chirp': ('window', 'equalize'), 'blclick': ('equalize', 'cal'),
+              'env': ('transform',), 'sam': ('onset',), 'sqenv': ('alpha',)}.get(t, ()):
+        node.pop(k, None)
+    if t == 'silence':
+        node['fill'] = 0
+    if t == 'bbn':
+        node['seed'] = 1
+    if t == 'env':
+        node['start'] = 0.0
+    if t in ('tone', 'samtone', 'bbn', 'blnoise', 'shaped', 'blclick') and node.get('level', 1.0) > 10:
+        node['level'] = 1.0        # (a level in dB belonged to the calibration that was just removed)
+    if t == 'wav':
+        node.update(norm='pe')
+    if t in ('firnoise', 'shaped'):
+        node.update(ntaps=1001, kw=True)      # (their last arguments are not optional: left out by keyword only)
+    node['omit'] = True
+    return node
 
 
 def build_real(node, pool=None):
@@ -152,102 +313,104 @@ def build_real(node, pool=None):
     logging.getLogger('psiaudio.stim').setLevel(logging.ERROR)
     t = node['t']
     kw = node.get('kw', False)
+    om = bool(node.get('omit'))
     fs = rep(node.get('fs'), node.get('fsrep'))
     tr = node.get('trep')
-    cal = _cal() if node.get('cal') else None
+    cal = _cal(node['cal']) if node.get('cal') else None
     if t == 'tone':
         return _make(stim.ToneFactory, [('fs', fs), ('frequency', node['frequency']), ('level', node['level']),
                                         ('phase', node.get('phase', 0)), ('polarity', node.get('polarity', 1)),
-                                        ('calibration', cal)], kw)
+                                        ('calibration', cal)], kw, om)
     if t == 'samtone':
         return _make(stim.SAMToneFactory, [('fs', fs), ('fc', node['fc']), ('fm', node['fm']), ('level', node['level']),
                                            ('depth', 1), ('phase', node.get('phase', 0)),
                                            ('phase_lb', node.get('phase_lb', 0)), ('phase_ub', node.get('phase_ub', 0)),
                                            ('polarity', node.get('polarity', 1)), ('eq_power', node.get('eq_power', True)),
-                                           ('equalize', node.get('equalize', True)), ('calibration', cal)], kw)
+                                           ('equalize', node.get('equalize', True)), ('calibration', cal)], kw, om)
     if t == 'silence':
-        return _make(stim.SilenceFactory, [('fill_value', node['fill'])], kw)
+        return _make(stim.SilenceFactory, [('fill_value', node['fill'])], kw, om)
     if t == 'bbn':
         return _make(stim.BroadbandNoiseFactory, [('fs', fs), ('level', node['level']), ('seed', node['seed']),
                                                   ('equalize', False), ('polarity', node.get('polarity', 1)),
-                                                  ('calibration', cal)], kw)
+                                                  ('calibration', cal)], kw, om)
     if t == 'blnoise':
         return _make(stim.BandlimitedNoiseFactory,
                      [('fs', fs), ('seed', node['seed']), ('level', node['level']), ('fl', node['fl']),
                       ('fh', node['fh']), ('filter_rolloff', node.get('rolloff', 1)),
                       ('passband_attenuation', node.get('pass_att', 1)), ('stopband_attenuation', node.get('stop_att', 80)),
-                      ('equalize', False), ('polarity', node.get('polarity', 1)), ('calibration', cal),
-                      ('discard_initial_samples', node.get('discard', True))], kw)
+                      ('equalize', bool(node.get('eq'))), ('polarity', node.get('polarity', 1)),
+                      ('calibration', _eqcal() if node.get('eq') else cal),
+                      ('discard_initial_samples', node.get('discard', True))], kw, om)
     if t == 'firnoise':
         return _make(stim.BandlimitedFIRNoiseFactory,
                      [('fs', fs), ('fl', node['fl']), ('fh', node['fh']), ('level', node['level']),
                       ('ntaps', node['ntaps']), ('window', node.get('window', 'hann')),
                       ('polarity', node.get('polarity', 1)), ('seed', node['seed']),
                       ('max_correction', node.get('max_correction', np.inf)), ('equalize', node.get('equalize', False)),
-                      ('calibration', _cal())], kw)
+                      ('calibration', _cal())], kw, om)
     if t == 'shaped':
         gains = {0: -60, node['fl']: 0, node['fh']: 0, node['fs'] / 2: -60}
         return _make(stim.ShapedNoiseFactory,
                      [('fs', fs), ('level', node['level']), ('gains', gains), ('ntaps', node['ntaps']),
                       ('window', node.get('window', 'hann')), ('polarity', node.get('polarity', 1)),
-                      ('seed', node['seed']), ('calibration', cal)], kw)
+                      ('seed', node['seed']), ('calibration', cal)], kw, om)
     if t == 'sqwave':
         return _make(stim.SquareWaveFactory, [('fs', fs), ('level', node['level']), ('frequency', node['frequency']),
-                                              ('duty_cycle', node['duty'])], kw)
+                                              ('duty_cycle', node['duty'])], kw, om)
     if t == 'fixed':
         if pool is None:
             arr = fixed_array(node)
         else:
-            key = C.case_hash({k: v for k, v in node.items() if k not in ('kw', 'fsrep')})
+            key = C.case_hash({k: v for k, v in node.items() if k not in ('kw', 'fsrep', 'omit')})
             arr = pool.setdefault(key, fixed_array(node))
-        return _make(stim.FixedWaveform, [('fs', fs), ('waveform', arr)], kw)
+        return _make(stim.FixedWaveform, [('fs', fs), ('waveform', arr)], kw, om)
     if t == 'chirp':
         return _make(stim.ChirpFactory,
                      [('fs', fs), ('start_frequency', node['f0']), ('end_frequency', node['f1']),
                       ('duration', rep(node['dur'], tr)), ('level', node['level']), ('calibration', cal),
-                      ('window', node.get('window', 'boxcar')), ('equalize', node.get('equalize', False))], kw)
+                      ('window', node.get('window', 'boxcar')), ('equalize', node.get('equalize', False))], kw, om)
     if t == 'click':
         return _make(stim.ClickFactory, [('fs', fs), ('duration', rep(node['dur'], tr)), ('level', node['level']),
-                                         ('polarity', node.get('polarity', 1)), ('calibration', _cal())], kw)
+                                         ('polarity', node.get('polarity', 1)), ('calibration', _cal())], kw, om)
     if t == 'blclick':
         return _make(stim.BandlimitedClickFactory,
                      [('fs', fs), ('flb', node['fl']), ('fub', node['fh']), ('window', rep(node['dur'], tr)),
-                      ('level', node['level']), ('calibration', cal), ('equalize', node.get('equalize', False))], kw)
+                      ('level', node['level']), ('calibration', cal), ('equalize', node.get('equalize', False))], kw, om)
     if t == 'wav':
         return _make(stim.WavFileFactory,
                      [('fs', fs), ('filename', wav_path(node)), ('level', node.get('level')), ('calibration', cal),
-                      ('normalization', node.get('norm', 'pe'))], kw)
+                      ('normalization', node.get('norm', 'pe'))], kw, om)
     inner = build_real(node['in'], pool)
     if t == 'gate':
         return _make(stim.GateFactory, [('fs', fs), ('start_time', rep(node['start'], tr)),
-                                        ('duration', rep(node['dur'], tr)), ('input_factory', inner)], kw)
+                                        ('duration', rep(node['dur'], tr)), ('input_factory', inner)], kw, om)
     if t == 'env':
         if node['window'] == 'cos2factory':
             return _make(stim.Cos2EnvelopeFactory,
                          [('fs', fs), ('duration', rep(node['dur'], tr)), ('rise_time', rep(node['rise'], tr)),
-                          ('input_factory', inner), ('start_time', rep(node['start'], tr))], kw)
+                          ('input_factory', inner), ('start_time', rep(node['start'], tr))], kw, om)
         params = [('envelope', node['window']), ('fs', fs), ('duration', rep(node['dur'], tr)),
                   ('rise_time', rep(node['rise'], tr)), ('input_factory', inner),
                   ('start_time', rep(node['start'], tr))]
-        if node.get('transform'):
-            params.append(('transform', TRANSFORMS[node['transform']]))
-        return _make(stim.EnvelopeFactory, params, kw)
+        if node.get('transform') or om:
+            params.append(('transform', TRANSFORMS[node['transform']] if node.get('transform') else None))
+        return _make(stim.EnvelopeFactory, params, kw, om)
     if t == 'sam':
         params = [('fs', fs), ('depth', node['depth']), ('fm', node['fm']), ('delay', rep(node['delay'], tr)),
                   ('direction', node.get('direction', 1)), ('input_factory', inner)]
-        if node.get('onset'):
-            params.append(('onset_method', node['onset']))
-        return _make(stim.SAMEnvelopeFactory, params, kw)
+        if node.get('onset') or om:
+            params.append(('onset_method', node.get('onset') or 'ss_transition'))
+        return _make(stim.SAMEnvelopeFactory, params, kw, om)
     if t == 'sqenv':
         return _make(stim.SquareWaveEnvelopeFactory,
                      [('fs', fs), ('depth', node['depth']), ('fm', node['fm']), ('duty_cycle', node['duty']),
-                      ('calibration', cal), ('input_factory', inner), ('alpha', node.get('alpha', 0))], kw)
+                      ('calibration', cal), ('input_factory', inner), ('alpha', node.get('alpha', 0))], kw, om)
     if t == 'notch':
         return _make(stim.NotchFilterFactory, [('fs', fs), ('notch_frequency', node['freq']), ('q', node['q']),
-                                               ('input_factory', inner)], kw)
+                                               ('input_factory', inner)], kw, om)
     if t == 'repeat':
         return _make(stim.RepeatFactory, [('fs', fs), ('n', node['n']), ('skip_n', node['skip']), ('rate', node['rate']),
-                                          ('delay', rep(node['delay'], tr)), ('input_factory', inner)], kw)
+                                          ('delay', rep(node['delay'], tr)), ('input_factory', inner)], kw, om)
     raise ValueError(t)
 
 
@@ -257,9 +420,14 @@ _len_cache = {}
 def fixed_len(node):
     """Array length of a FixedWaveform subclass instance (the library computes the array; the model treats it
     as an opaque fixed waveform of that length)."""
-    key = C.case_hash({k: v for k, v in node.items() if k not in ('kw', 'fsrep', 'trep')})
+    key = C.case_hash({k: v for k, v in node.items() if k not in ('kw', 'fsrep', 'trep', 'omit')})
     if key not in _len_cache:
-        _len_cache[key] = len(build_real(node).waveform)
+        try:
+            _len_cache[key] = len(build_real(explicit(node)).waveform)
+        except Exception:  # noqa
+            # the library fails on this stimulus: the case that contains it runs into the same failure and reports it
+            # with a replay (an exception while cases are being generated would leave no concrete input behind)
+            return 0
     return _len_cache[key]
 
 
@@ -269,9 +437,24 @@ def has_transform(node):
 
 def is_fir(node):
     """Does the tree contain an FIR-filtered noise (equality only to round-off)?"""
-    if node['t'] in ('firnoise', 'shaped'):
-        return True
+    if node['t'] in ('firnoise', 'shaped') or (node['t'] == 'blnoise' and node.get('eq')):
+        return True         # (equalised IIR noise passes through the calibration's FIR impulse response first)
     return 'in' in node and is_fir(node['in'])
+
+
+def has_eq_iir(node):
+    return (node['t'] == 'blnoise' and bool(node.get('eq'))) or ('in' in node and has_eq_iir(node['in']))
+
+
+def tree_tol(node):
+    """Tolerance (fraction of full scale) of the stream comparison: 0 = bit-exact; FIR-filtered noise to round-off
+    (1e-12, the property's figure).  Equalised IIR noise is an FIR stage (SciPy filters a = [1] by convolution, whose
+    summation order depends on the chunk) followed by a high-order IIR band-pass that amplifies that round-off:
+    differences of some 1e-11 of full scale occur on the unchanged library (notes: reported, not alarmed), so these
+    are compared to 1e-9 -- still nine orders below the effect of a lost or mixed-up filter state."""
+    if has_eq_iir(node):
+        return EQ_TOL
+    return FIR_TOL if is_fir(node) else 0.0
 
 
 def window_name(node):
@@ -331,6 +514,7 @@ class Plan:
     """Everything derived from a tree: driver expression, ids, cell sources."""
 
     def __init__(self, tree):
+        tree = explicit(tree)    # (sources are built with every argument spelled out)
         self.tree = tree
         self.nodes = {}          # id -> node
         self.counter = itertools.count()
